@@ -5,6 +5,7 @@
 mod api;
 mod build;
 mod coding;
+mod d_io;
 mod d_lzma;
 mod d_lzma2;
 mod d_stream;
@@ -136,6 +137,11 @@ fn main() {
             }
             finish(rep, &a);
         }
+        "io" => {
+            let mut rep = Report::new("io");
+            d_io::run(&prop, seed, a.num("inputs", 4) as usize, a.get("trace"), &mut rep);
+            finish(rep, &a);
+        }
         "xzlib" => {
             let lib = d_xz::payload_lib();
             let v: Vec<serde_json::Value> = lib.iter().map(|(p, o)| serde_json::json!({"plen": p.len(), "ulen": o.len()})).collect();
@@ -164,6 +170,7 @@ fn main() {
                 "stream" => d_stream::replay_value(case, &prop, &mut rep),
                 "xz" | "xzbytes" => d_xz::replay_value(case, &prop, &mut rep),
                 "lzma2" => d_lzma2::replay_value(case, &prop, &mut rep),
+                "io" => d_io::replay_value(case, &prop, &mut rep),
                 k => {
                     eprintln!("unknown case kind {}", k);
                     std::process::exit(2);
